@@ -204,6 +204,33 @@ void cv_basecell_vertex_cells(CellVec *c, int res, int n) {
         H3Index h = 0; if (latLngToCell(&g, res, &h)) continue; cv_push(c, h);
         H3Index d[7] = {0}; if (!gridDisk(h, 1, d)) { H3Index x = d[1 + vt_randn(6)]; if (x) cv_push(c, x); } }
 }
+void cv_pentagon_edge_band(CellVec *c, int res, int stride, int phase, int nt) {
+    static const double OFF[] = {1e-9, 1e-5, 1e-4, 3e-4};
+    H3Index p[12]; LatLng g[12]; double v[12][3]; getPentagons(0, p);
+    for (int i = 0; i < 12; i++) { cellToLatLng(p[i], &g[i]); v[i][0] = cos(g[i].lat) * cos(g[i].lng); v[i][1] = cos(g[i].lat) * sin(g[i].lng); v[i][2] = sin(g[i].lat); }
+    for (int i = 0; i < 12; i++) { if ((i % stride) != (phase % stride)) continue;
+        for (int j = 0; j < 12; j++) { if (j == i || greatCircleDistanceRads(&g[i], &g[j]) > 1.2) continue;
+            double nx = v[i][1] * v[j][2] - v[i][2] * v[j][1], ny = v[i][2] * v[j][0] - v[i][0] * v[j][2], nz = v[i][0] * v[j][1] - v[i][1] * v[j][0], nn = sqrt(nx * nx + ny * ny + nz * nz); nx /= nn; ny /= nn; nz /= nn;
+            for (int s = 0; s < nt; s++) { double t = 0.004 * pow(40.0, (s + vt_rand01()) / nt);      /* 0.004 .. 0.16 of the edge, log-spaced */
+                double m[3]; for (int q = 0; q < 3; q++) m[q] = (1 - t) * v[i][q] + t * v[j][q];
+                for (int o = 0; o < 4; o++) for (int sg = -1; sg <= 1; sg += 2) {
+                    double w[3] = {m[0] + sg * OFF[o] * nx, m[1] + sg * OFF[o] * ny, m[2] + sg * OFF[o] * nz}; double wn = sqrt(w[0] * w[0] + w[1] * w[1] + w[2] * w[2]);
+                    LatLng ll = {asin(w[2] / wn), atan2(w[1], w[0])}; H3Index h; if (!latLngToCell(&ll, res, &h)) cv_push(c, h); } } } }
+}
+static int cmp_h3(const void *a, const void *b) { uint64_t x = *(const uint64_t *)a, y = *(const uint64_t *)b; return x < y ? -1 : x > y; }
+void cv_pentagon_edge_strip(CellVec *c, int res, int stride, int phase) {
+    H3Index p[12]; LatLng g[12]; double v[12][3]; getPentagons(0, p); double km; getHexagonEdgeLengthAvgKm(res, &km); double w = km / 6371.0 * 1.7320508;   /* cell width */
+    for (int i = 0; i < 12; i++) { cellToLatLng(p[i], &g[i]); v[i][0] = cos(g[i].lat) * cos(g[i].lng); v[i][1] = cos(g[i].lat) * sin(g[i].lng); v[i][2] = sin(g[i].lat); }
+    CellVec t = {0};
+    for (int i = 0; i < 12; i++) { if ((i % stride) != (phase % stride)) continue;
+        for (int j = 0; j < 12; j++) { if (j == i || greatCircleDistanceRads(&g[i], &g[j]) > 1.2) continue;
+            double nx = v[i][1] * v[j][2] - v[i][2] * v[j][1], ny = v[i][2] * v[j][0] - v[i][0] * v[j][2], nz = v[i][0] * v[j][1] - v[i][1] * v[j][0], nn = sqrt(nx * nx + ny * ny + nz * nz); nx /= nn; ny /= nn; nz /= nn;
+            for (double tt = 0; tt <= 0.16; tt += 0.8 * w / 1.107) { double m[3]; for (int q = 0; q < 3; q++) m[q] = (1 - tt) * v[i][q] + tt * v[j][q];
+                for (double off = -2.5 * w; off <= 2.5 * w; off += 0.8 * w) { double x[3] = {m[0] + off * nx, m[1] + off * ny, m[2] + off * nz}; double xn = sqrt(x[0] * x[0] + x[1] * x[1] + x[2] * x[2]);
+                    LatLng ll = {asin(x[2] / xn), atan2(x[1], x[0])}; H3Index h; if (!latLngToCell(&ll, res, &h)) cv_push(&t, h); } } } }
+    if (t.n) { qsort(t.v, t.n, sizeof(uint64_t), cmp_h3); for (int64_t k = 0; k < t.n; k++) if (k == 0 || t.v[k] != t.v[k - 1]) cv_push(c, t.v[k]); }
+    cv_free(&t);
+}
 void cv_coarse_boundary_sample(CellVec *c, int res, int n) {
     CellVec t = {0}; cv_coarse_boundary_cells(&t, res, 0);
     for (int i = 0; i < n && t.n > 0; i++) cv_push(c, t.v[vt_randn(t.n)]);
